@@ -36,6 +36,12 @@ def gen_random(rng):
     return specs
 
 
+def gen_lopsided(rng):
+    """cubelib.gen_lopsided as dimension specs (N 30..120: operands of very different lengths in the intersections)"""
+    N, cols = cubelib.gen_lopsided(rng)
+    return [cubelib.make_spec(rng, col, common) for col, common, _ in cols]
+
+
 def gen_exhaustive(nd, rows=3):
     """Every entries-structure over `rows` rows and 3 uncommon categories: dense arrays over
     {0,1,2,3} with common 3 (the walk never looks at the common value, so every (array over 3
@@ -100,7 +106,9 @@ def run(ctx):
     ctx.rule = ("random: 1-4 one-axis iindex dimensions (from_array or constructor with shuffled dict order), N in 0..8, "
                 "1-4 categories from pools incl. 255/256/65535/65536, common most-frequent/rare/absent, observed through "
                 "interactions(), walk(f) and walk([f,g]) (every case through all three, which must deliver identical sequences; "
-                "the literal compared in Coq rotates over them); exhaustive: every dictionary structure over 3 rows x 3 uncommon "
+                "the literal compared in Coq rotates over them); lopsided: N in 30..120, 2-4 dims of extent 2-4 with one frequent category "
+                "(60-90 % of the rows) and rare categories of 1-3 rows whose last row usually lies in the next dimension's frequent "
+                "category (short running row-id sets against long index entries); exhaustive: every dictionary structure over 3 rows x 3 uncommon "
                 "categories for 1 and 2 dimensions (quick) and 3 dimensions (thorough); a case is distinct per "
                 "(dims literal, observation mode) and non-trivial when at least one pair is delivered")
     ctx.trusted = list(core.STD_TRUSTED) + [
@@ -130,7 +138,11 @@ def run(ctx):
         return obs
 
     n_random = 50000 if thorough else 2500
+    n_lop = 1500 if thorough else 150
+    every = n_random // n_lop
     for i in range(n_random):
+        if i % every == 0:          # interleaved so that the (heavier, N up to 120) cases spread over the Coq shards
+            add(gen_lopsided(ctx.rng), modes[(i // every) % 3])
         specs = gen_random(ctx.rng)
         obs = add(specs, modes[i % 3])
         if i < 3:
@@ -142,6 +154,7 @@ def run(ctx):
             add(specs, "interactions")
             n_exh += 1
     ctx.coverage["random_cases"] = n_random
+    ctx.coverage["lopsided_cases"] = len(range(0, n_random, every))
     ctx.coverage["exhaustive_cases"] = n_exh
     ctx.coverage["exhaustive_subspace"] = ("all 4^3 dictionaries per dimension over 3 rows x 3 uncommon categories, %s dimensions "
                                         "(a complete sub-space; the random stream is not exhaustive)" % ("1-3" if thorough else "1-2"))
